@@ -29,6 +29,12 @@ func coreC04(tier string) []RunSpec {
 			}
 		}
 	}
+	// the mutated proof behind eight or more genuine inputs
+	for mk := 0; mk < c04NumMut; mk += 3 {
+		for via := 0; via < 2; via++ {
+			out = append(out, RunSpec{Profile: "core:forge-behind-many", Params: map[string]int{"mut": mk, "via": via, "rot": 0, "many": 1}})
+		}
+	}
 	// coordinated forgeries over two inputs under one key
 	for v := 0; v < 3; v++ {
 		for via := 0; via < 2; via++ {
@@ -256,13 +262,57 @@ func (m *MW) StepForge(forceMut, forceVia int) {
 			}
 		}
 	}
+	// ... or behind MANY genuine inputs (8 to 12 of them): the mutated proof is the last of a long list
+	var many []*HProof
+	if m.rc.P("many", 0) == 1 || m.T.Chance("forge.many", 1, 5) {
+		want := 8 + m.T.Choose("forge.many.n", 5)
+		for _, x := range m.User.Purse[mint] {
+			if x != p && x.Witness == "" && len(many) < want {
+				many = append(many, x)
+			}
+		}
+		if len(many) < 8 {
+			many = nil
+		}
+	}
 	m.rc.Op("forge:" + desc)
 	m.rc.S.Probe(fmt.Sprintf("c04_mut_%02d", mk))
 	var r *Resp
 	m.rc.S.BeginEpisode()
 	m.rc.S.Run1(m.name("forge"), m.W.Ext, func() {
 		amt, _ := pj["amount"].(uint64)
-		if via == 0 && second != nil {
+		if many != nil {
+			all := append(append([]*HProof{}, many...), p)
+			fee := m.feeFor(mint, all)
+			tot := SumH(many) + amt
+			outAmt := uint64(1)
+			if tot > fee+1 && tot-fee < 1<<40 {
+				outAmt = tot - fee
+			}
+			ins := []any{}
+			for _, x := range many {
+				ins = append(ins, x.J())
+			}
+			ins = append(ins, pj)
+			m.rc.S.Probe("c04_forge_behind_many_inputs")
+			if via == 0 {
+				outs := m.W.NewOutputs(Split(outAmt), ks.ID)
+				r = m.Atk.Post(mint, "/v1/swap", map[string]any{"inputs": ins, "outputs": outsJ(outs)})
+				if r.OK() {
+					sigs, _ := r.Body["signatures"].([]any)
+					m.Atk.Purse[mint] = append(m.Atk.Purse[mint], m.W.Unblind(mint, outs, sigs)...)
+					m.markSpent(mint, many)
+				}
+			} else {
+				inv := m.W.LN.NewExternalInvoice(1000)
+				if q, _ := m.Atk.ReqMeltQuote(mint, inv.Bolt11, 0); q != nil {
+					r = m.Atk.Post(mint, "/v1/melt/bolt11", map[string]any{"quote": q.ID, "inputs": ins})
+					if r.OK() {
+						m.markSpent(mint, many)
+					}
+				}
+			}
+		} else if via == 0 && second != nil {
 			// the mutated proof sits behind a genuine first input
 			fee := m.feeFor(mint, []*HProof{second, p})
 			tot := second.Amount + amt
